@@ -40,6 +40,13 @@ type ReadFault struct {
 	Stall   int  // extra yields before the first byte
 	SkipErr error
 	Tag     int // owner (task id) that this plan was made for
+
+	// Caps: optional interfaces the reader offers besides io.Reader and io.Closer, as real storage
+	// readers do (bytes.Reader, *os.File): bit 0 io.Seeker, bit 1 io.WriterTo.
+	Caps int
+	// RewindSubst: content delivered after the consumer seeks back to the start (a store whose block
+	// changed between two passes over it). Implies io.Seeker.
+	RewindSubst []byte
 }
 
 // Resolved is the plan after conflicts are settled: the bytes a drain of the
@@ -102,6 +109,91 @@ type Reader struct {
 	ReadSizes []int // offsets at which each Read call started (the library's read trace)
 	fired     bool
 	Closed    bool
+	Passes    [][]byte // what earlier passes delivered, when the consumer rewound the stream (Delivered: the current pass)
+	WroteTo   bool     // the consumer used WriteTo
+}
+
+// seek implements io.Seeker over the resolved stream. A rewind to the start begins a new pass.
+func (r *Reader) seek(off int64, whence int) (int64, error) {
+	r.S.Yield("stream.seek")
+	abs := off
+	switch whence {
+	case io.SeekCurrent:
+		abs += int64(r.off)
+	case io.SeekEnd:
+		abs += int64(len(r.R.D))
+	}
+	if abs < 0 {
+		return 0, fmt.Errorf("simstore: negative position")
+	}
+	if abs > int64(len(r.R.D)) {
+		abs = int64(len(r.R.D))
+	}
+	if abs == 0 && (r.off > 0 || r.Ended != "") {
+		r.Passes = append(r.Passes, r.Delivered)
+		r.Delivered = nil
+		if r.F.RewindSubst != nil {
+			r.R.D, r.R.ErrAt = r.F.RewindSubst, -1
+		}
+	}
+	r.off = int(abs)
+	if r.Ended != "err" || !r.F.ErrSticky {
+		r.Ended = ""
+	}
+	return abs, nil
+}
+
+// writeTo implements io.WriterTo with the same stream semantics as Read.
+func (r *Reader) writeTo(dst io.Writer) (int64, error) {
+	r.WroteTo = true
+	var total int64
+	buf := make([]byte, 32*1024)
+	for {
+		n, err := r.Read(buf)
+		if n > 0 {
+			m, werr := dst.Write(buf[:n])
+			total += int64(m)
+			if werr != nil {
+				return total, werr
+			}
+		}
+		if err == io.EOF {
+			return total, nil
+		}
+		if err != nil {
+			return total, err
+		}
+	}
+}
+
+type seekReader struct{ *Reader }
+
+func (s seekReader) Seek(off int64, whence int) (int64, error) { return s.seek(off, whence) }
+
+type wtReader struct{ *Reader }
+
+func (w wtReader) WriteTo(dst io.Writer) (int64, error) { return w.writeTo(dst) }
+
+type seekWtReader struct{ *Reader }
+
+func (s seekWtReader) Seek(off int64, whence int) (int64, error) { return s.seek(off, whence) }
+func (s seekWtReader) WriteTo(dst io.Writer) (int64, error)      { return s.writeTo(dst) }
+
+// withCaps returns the reader behind the optional interfaces its plan asks for.
+func (r *Reader) withCaps() io.Reader {
+	caps := r.F.Caps
+	if r.F.RewindSubst != nil {
+		caps |= 1
+	}
+	switch caps & 3 {
+	case 1:
+		return seekReader{r}
+	case 2:
+		return wtReader{r}
+	case 3:
+		return seekWtReader{r}
+	}
+	return r
 }
 
 func (r *Reader) Read(p []byte) (int, error) {
@@ -265,7 +357,7 @@ func (sm *Seam) Wrap(lsys *linking.LinkSystem) {
 			rd := &Reader{S: sm.S, T: sm.T, R: Resolve(b, &ff), F: ff}
 			sm.Readers = append(sm.Readers, rd)
 			sm.S.Yield("seam.opened")
-			return rd, nil
+			return rd.withCaps(), nil
 		}
 	}
 	if innerW != nil {
